@@ -599,6 +599,10 @@ def run(ctx):
         fs.close()
 
     states = sum(r["states"] for r in ctx.tlc_runs)
+    # multi-module projects (spec/GenMod.tla, lib/modproj.py): the same declarations split over several files
+    with ctx.timed("modproj"):
+        from lib import modproj
+        modproj.run(ctx)
     common.write_evidence(ctx, "model_checking", {
         "states": states,
         "transitions": states,
